@@ -26,6 +26,11 @@ def main():
     if out.strip():
         print("refusing: %s has local modifications:\n" % REPO + out); return 2
     res = {"id": sid, "applied": False, "demo_on_changed": None, "demo_on_unchanged": None, "checks": {}}
+    if os.path.exists(os.path.join(dst, "result.json")):
+        try:
+            res["history"] = json.load(open(os.path.join(dst, "result.json"))).get("history", "")      # notes of earlier evaluations are kept
+        except Exception:
+            pass
     env = dict(os.environ, PYTHONPATH=REPO, OPENMDAO_REPORTS="0")
     rc0, out0 = sh(["/venv/bin/python", os.path.join(dst, "demo.py")], cwd="/tmp", env=env)
     res["demo_on_unchanged"] = {"exit": rc0, "tail": out0[-600:]}
